@@ -73,6 +73,11 @@ namespace sqf::opcodes
             {
                 return {};
             }
+            if ((m_operator_name == "+" || m_operator_name == "-") && !exp->empty() && (((*exp)[0] >= '0' && (*exp)[0] <= '9') || (*exp)[0] == '.'))
+            { // A sign in front of a number literal gets folded into the literal when the text is compiled again.
+              // Give the literal a sign of its own so that this operator survives the round trip.
+                return m_operator_name + " +" + *exp;
+            }
             return m_operator_name + " " + *exp;
         }
 
